@@ -582,3 +582,21 @@ Qed.
 (* decidable well-formedness (used for the non-vacuity example) *)
 Lemma mk_block_wf t v : t < two64 -> lenN (mk_block t v) <= c_MaxNDNPacketSize -> wf_block (mk_block t v).
 Proof. intros Ht Hs. exists t, v. repeat split; assumption. Qed.
+
+(* ------------------------------------------------------------------------------------------------ *)
+(* sender side of the stream face.  Obligation on StreamFace.Send: it is ATOMIC PER PACKET - the segments of one wire are
+   written contiguously, so the byte stream is the concatenation of whole packets in some order.  Under that obligation the
+   receiver gets exactly the packets sent: *)
+Theorem send_atomic_delivers_lemma : forall (pkts : list (list bytes)),
+  Forall (fun segs => wf_block (concat segs)) pkts ->
+  app_frames (concat (map (@concat byte) pkts)) = (AEnd true, map (@concat byte) pkts).
+Proof.
+  intros pkts H. apply app_framing_exact_lemma. apply Forall_map. exact H.
+Qed.
+
+(* without it (a single-segment packet written between the two segments of another): blocks are split on the wire *)
+Lemma send_interleaved_splits :
+  let big := [[6; 4; 1; 2]; [3; 4]] in let small := [[5; 1; 9]] in
+  snd (app_frames (concat [nth 0 big []; concat small; nth 1 big []])) <> [concat big; concat small] /\
+  snd (app_frames (concat [nth 0 big []; concat small; nth 1 big []])) <> [concat small; concat big].
+Proof. vm_compute. split; discriminate. Qed.
